@@ -686,3 +686,70 @@ Section Disc.
       rewrite (bic_all_gt d1 (blib b) Hwf1 He1 (bid b) y (p' ++ [en]) Hc Hy); [|destruct p'; discriminate | exact Hgt | apply enough_fuel_of].
       cbn [ri ref_empty]. rewrite N.eqb_refl. cbv beta iota. rewrite Hhl1. apply Hquiet. exact Hhl1.
   Qed.
+
+  (* ---------- whole histories ---------- *)
+
+  Definition PSeen (s : fstate) (seen : list block) : Prop :=
+    forall x, In x seen -> In x U /\ In (bid x) (keys (store (db s))).
+
+  Lemma run_pre : forall h s seen, PreInv s -> (forall b, In b h -> In b U) -> PSeen s seen ->
+    let t := fk_run cfg s h in
+    length t = length h /\ Forall (fun x => snd x = ROk) t /\
+    c01_discipline_b LNone t = true /\ c01_refeed_b seen h t = true /\
+    (f_irr (c_filter cfg) = true -> c02_b LNone h t = true).
+  Proof.
+    induction h as [|b h IH]; intros s seen HP Hh Hseen.
+    - cbn. repeat split; auto.
+    - assert (Hb : In b U) by (apply Hh; left; reflexivity).
+      assert (Hh' : forall x, In x h -> In x U) by (intros x Hx; apply Hh; right; exact Hx).
+      cbn [fk_run].
+      destruct (pre_step s b HP Hb) as [(s' & Hstep & HP' & Hsame & Hkeys & Hkb)|(Hnk & Hdisc)].
+      + (* nothing delivered *)
+        rewrite Hstep.
+        assert (Hseen' : PSeen s' (b :: seen)).
+        { intros x [<-|Hx]; [split; assumption|]. destruct (Hseen x Hx) as [HxU Hkx]. split; [exact HxU | apply Hkeys; exact Hkx]. }
+        destruct (IH s' (b :: seen) HP' Hh' Hseen') as (Hlen & Hok & Hd & Hre & Hc2).
+        cbn zeta in *. split; [cbn [length]; rewrite Hlen; reflexivity|].
+        split; [constructor; [reflexivity | exact Hok]|].
+        split; [exact Hd|]. split.
+        * cbn [c01_refeed_b]. rewrite Hre. destruct (existsb (block_eqb b) seen); reflexivity.
+        * intros Hirr. specialize (Hc2 Hirr). exact Hc2.
+      + (* the LIB is discovered *)
+        destruct Hdisc as (s' & evs & a & Fin & S' & Hstep & HaU & (e0 & rest & Hevs & He0) & Happ & HI' & Hmon & Hkn).
+        rewrite Hstep.
+        assert (Hseen' : Seen U s' (b :: seen)).
+        { intros x [<-|Hx].
+          - split; [exact Hb|]. apply (Hkn b Hb). apply in_or_app. right. left. reflexivity.
+          - destruct (Hseen x Hx) as [HxU Hkx]. split; [exact HxU|]. apply (Hkn x HxU). apply in_or_app. left. exact Hkx. }
+        destruct (run_c01 U (R a) cfg Hnofail Hnew Hundo U_id U_uniq U_up (R_id a HaU) (R_num a HaU) (R_up a HaU) (R_decl a HaU)
+                    h s' Fin S' (b :: seen) HI' Hh' Hseen') as (Hlen & Hok & (S2 & Happ2) & Hre).
+        cbn zeta in *. split; [cbn [length]; rewrite Hlen; reflexivity|].
+        split; [constructor; [reflexivity | exact Hok]|].
+        assert (Hall : all_events ((evs, ROk) :: fk_run cfg s' h) = e0 :: rest ++ all_events (fk_run cfg s' h)).
+        { unfold all_events. cbn [map concat fst]. rewrite Hevs. reflexivity. }
+        split; [|split].
+        * unfold c01_discipline_b, root_lib. rewrite Hall, He0.
+          change (e0 :: rest ++ all_events (fk_run cfg s' h)) with ((e0 :: rest) ++ all_events (fk_run cfg s' h)).
+          rewrite <- Hevs, (apply_all_app _ _ _ _ _ Happ), Happ2. reflexivity.
+        * cbn [c01_refeed_b]. rewrite Hre, andb_true_r.
+          destruct (existsb (block_eqb b) seen) eqn:Hex; [|reflexivity].
+          apply existsb_exists in Hex as (x & Hx & Heq). apply block_eqb_eq in Heq. subst x.
+          destruct (Hseen b Hx) as [_ Hkb]. contradiction.
+        * intros Hirr. destruct (Hmon Hirr) as (m' & Hm' & HM').
+          destruct (run_c02 U (R a) cfg Hnofail Hnew Hundo Hirr U_id U_uniq U_up (R_id a HaU) (R_num a HaU) (R_up a HaU) (R_decl a HaU)
+                      h s' Fin S' m' HI' HM' Hh') as [m2 Hm2].
+          unfold c02_b, root_ref. rewrite Hall, He0. cbn [fin_trace]. fold (m0 (R a)). rewrite Hm', Hm2. reflexivity.
+  Qed.
+
+  Theorem disc_run h : (forall b, In b h -> In b U) ->
+    let t := fk_run cfg (fs_init LNone) h in
+    length t = length h /\ Forall (fun x => snd x = ROk) t /\
+    c01_discipline_b LNone t = true /\ c01_refeed_b [] h t = true /\
+    c01_error_b (c_fail_at cfg) 0 t = true /\
+    (f_irr (c_filter cfg) = true -> c02_b LNone h t = true).
+  Proof.
+    intros Hh. destruct (run_pre h (fs_init LNone) [] pre_init Hh) as (Hlen & Hok & Hd & Hre & Hc2).
+    { intros x []. }
+    cbn zeta. repeat split; try assumption. rewrite Hnofail. apply error_ok. exact Hok.
+  Qed.
+End Disc.
